@@ -193,13 +193,14 @@ def _fn_line(d, sname, fname):
 # ------------------------------------------------------------------ model level (oracle)
 def _model_case(args):
     """One wrapper x cost spec on the real implementation (worker function)."""
-    method, seed, cost_name = args
+    method, seed, cost_name = args[:3]
+    force = len(args) > 3 and args[3]      # full_cost + dictionary specification (+ the excluded layer of 'pitcat')
     warnings.filterwarnings('ignore')
     torch.set_num_threads(1)
     import contextlib
     import io
     import plinio.cost as pc
-    out = {'method': method, 'seed': seed, 'cost': cost_name, 'problems': []}
+    out = {'method': method, 'seed': seed, 'cost': cost_name, 'problems': [], 'force': bool(force)}
     rng = random.Random(seed)
 
     def problem(key, what):
@@ -209,11 +210,13 @@ def _model_case(args):
             kind = {'pit1d': 'pit1d', 'pit2d': 'pit2d', 'pitcat': 'pitcat', 'sn': 'sn', 'mpsl': 'mpsl', 'mpsc': 'mpsc', 'odimo': 'mpsc'}[method]
             spec = obs_models.random_spec(rng, kind=kind, dropout=False, gumbel=False, hard=False, full_cost=rng.random() < .5,
                                           discrete_cost=False, cost='single')
+            if force:
+                spec['full_cost'] = True
             net = obs_models._seed_net(spec).train()
             shape = obs_models.input_shape(spec)
             torch.manual_seed(seed)
             cs = getattr(pc, cost_name)
-            cost_arg = cs if rng.random() < .5 else {'x': cs, 'p': pc.params if method.startswith(('pit', 'sn')) else pc.params_bit}
+            cost_arg = cs if (rng.random() < .5 and not force) else {'x': cs, 'p': pc.params if method.startswith(('pit', 'sn')) else pc.params_bit}
             name = None if not isinstance(cost_arg, dict) else 'x'
             from plinio.methods import PIT, SuperNet
             from plinio.methods.mps import MPS, MPSType, get_default_qinfo
@@ -500,8 +503,10 @@ def run(chk):
         for c in costs:
             for _ in range(per):
                 jobs.append((method, rng.randint(0, 1 << 30), c))
+            if method in ('pit2d', 'pitcat', 'sn'):
+                jobs.append((method, rng.randint(0, 1 << 30), c, True))
     for o in common.pmap(_model_case, jobs):
-        case = {'kind_': 'model', 'method': o['method'], 'seed': o['seed'], 'cost': o['cost']}
+        case = {'kind_': 'model', 'method': o['method'], 'seed': o['seed'], 'cost': o['cost'], 'force': o.get('force', False)}
         chk.count((o['method'], o['seed'], o['cost']), bucket='model:%s:%s' % (o['method'], o['cost']),
                   sample=dict(case, value=o.get('value')) if o['method'] == 'odimo' else None)
         for key, what in o['problems']:
@@ -511,7 +516,7 @@ def run(chk):
 def replay(data):
     case = data['case']
     if case.get('kind_') == 'model':
-        o = _model_case((case['method'], case['seed'], case['cost']))
+        o = _model_case((case['method'], case['seed'], case['cost'], case.get('force', False)))
         print(o)
         return 1 if o['problems'] else 0
     import plinio.cost as pc
